@@ -396,6 +396,7 @@ def main():
     tier = os.environ.get("VERIF_TIER", "quick")
     if "--tier" in sys.argv:
         tier = sys.argv[sys.argv.index("--tier") + 1]
+    os.environ["VERIF_TIER"] = tier
     seed = int(os.environ.get("VERIF_SEED", "0") or 0)
     t0 = time.time()
     pmap = json.load(open(os.path.join(VERIF, "contracts", "properties.json")))
@@ -467,7 +468,8 @@ def main():
     # bounded stand-in / witness search: hand-written scenarios replayed on the real crate (never counted as proof).
     # Run when the verifier reports a violation (to attach a failing input), when it is undecided (the bounded
     # check then stands in for the functions it could not reach) and always in the thorough tier.
-    bounded = dict(scenarios_run=0, failed=[], note="bounded: finite hand-written scenario set per property, public API, debug+release")
+    bounded = dict(scenarios_run=0, failed=[], note="bounded: finite hand-written scenario set per property, public API, debug+release; for C09/C10/C11 also the "
+                        "exhaustive grid of all texts of up to 3 (thorough: 4) items of scenarios/C09/alphabet.txt (counted in scenarios_run)")
     scen_fail = []
     scen_known = []
     always = bool(spec.get("bounded_always")) or any(k.get("scenario") and k["property"] == prop for k in known.get("known", []))  # properties that lean on the (unverifiable) generated lexer: replay on every run
